@@ -3,6 +3,7 @@ Core-only so that it links as a `lean_exe`. -/
 import OsmoVerif.Model.DrvNum
 import OsmoVerif.Model.DrvMath
 import OsmoVerif.Model.DrvMint
+import OsmoVerif.Model.DrvIncentives
 import OsmoVerif.Model.DrvRouter
 import OsmoVerif.Model.DrvTwap
 import OsmoVerif.Model.DrvGamm
@@ -18,6 +19,7 @@ open OsmoVerif
 
 structure St where
   mint : Mint.DrvState := Mint.initMint
+  incentives : Incentives.State := Incentives.initIncentives
   router : Router.FeeCfg := Router.initRouter
   twap : Twap.DrvState := Twap.initTwap
   gamm : Gamm.State := Gamm.initGamm
@@ -45,6 +47,7 @@ def step (st : St) (line : String) : St × String :=
   | "gamm" :: op :: args => let (x, o) := Gamm.stepGamm st.gamm op args; ({ st with gamm := x }, o)
   | "twap" :: op :: args => let (x, o) := Twap.stepTwap st.twap op args; ({ st with twap := x }, o)
   | "router" :: op :: args => let (x, o) := Router.stepRouter st.router op args; ({ st with router := x }, o)
+  | "incentives" :: op :: args => let (x, o) := Incentives.stepIncentives st.incentives op args; ({ st with incentives := x }, o)
   | "mint" :: op :: args => let (m, o) := Mint.stepMint st.mint op args; ({ st with mint := m }, o)
   | _ => (st, "bad-op")
 
